@@ -162,7 +162,31 @@ CHECKS["C11"] = dict(
           "abstract space that is exhaustive; scaled concretisation covers exact multiples, +-1 and offsets beyond 2^32."),
     ref="DESIGN.md section 5 C11", technique="TLC exhaustive exploration of Chunk.tla + scaled replay through client/server/backend")
 
+TR_NOTE = ("Trusted base: TLC as evaluator of the tables (ClientFile.tla checked against Wire.tla: a version only uses message "
+           "types it defines); the layout table of Wire.tla, written from the protocol descriptions and not from messages.go; the "
+           "reference codec interpreting it; per-method glue in harness/cmd/transp that maps arguments to fields.")
+CHECKS["C03"] = dict(
+    engine="transp", category="model_checking", note=TR_NOTE,
+    text=("ClientFile.tla states, per File method and negotiated version, the T-message(s), the backend operation and the "
+          "documented rewriting, and ExtractErrno as a table over error shapes; TLC checks it against Wire.tla and enumerates the "
+          "scenario grid (about 2000: methods x versions x boundary arguments x results x error shapes); every scenario runs "
+          "p9.Client <-> recording proxy <-> p9.Server <-> recording backend and backend call, File identity, arguments, return "
+          "values, errno and message family are compared. Input/configuration-quantified; the grid is finite and run exhaustively."),
+    ref="DESIGN.md section 5 C03", technique="TLC-checked specification tables (ClientFile.tla) + exhaustive end-to-end scenario replay")
+CHECKS["C01"] = dict(
+    engine="transp", category="exploration", note=TR_NOTE,
+    text=("Wire.tla is an independent statement of the 65 message layouts (TLC checks its internal consistency: distinct type "
+          "bytes, T/R pairing, payload last, sizes); every frame captured in the scenario grid of ClientFile.tla - all T types the "
+          "client emits at versions 0..7, all R types the server emits, boundary values in every field - is decoded by a codec that "
+          "only interprets that table and compared positionally with the values given/returned, incl. size field, 12-bit "
+          "permissions and byte-exact re-encoding. Encode/decode fidelity over all values is outside what TLA+ decides; the "
+          "level is exploration over a boundary grid against an independent oracle."),
+    ref="DESIGN.md section 5 C01, section 9", technique="independent TLA+ layout table + reference codec; boundary-grid differential check of captured frames")
+
 ENGINES = [
+    {"name": "transp", "path": "spec/Wire.tla + spec/ClientFile.tla + harness/wirecodec + harness/cmd/transp",
+     "serves_properties": ["C01", "C03"],
+     "kind_free_text": "specification tables checked by TLC; scenario grid replayed end to end with frames captured on the wire"},
     {"name": "chunk", "path": "spec/Chunk.tla + spec/MC_Chunk.tla + harness/cmd/chunkio", "serves_properties": ["C11"],
      "kind_free_text": "loop state machine explored exhaustively; behaviours replayed scaled"},
     {"name": "version", "path": "spec/Version.tla + spec/MC_Version.tla + harness/cmd/sizes",
